@@ -70,6 +70,8 @@ def build():
             v.class_attr_types.update(ast.literal_eval(a['CLASS_ATTR_TYPES']))
         if 'FIELD_TYPES' in a:
             v.field_types.update(ast.literal_eval(a['FIELD_TYPES']))
+        if 'ORACLE_METHODS' in a:
+            v.oracle_methods.update(ast.literal_eval(a['ORACLE_METHODS']))
         if 'ORACLES' in a:
             v.oracles.update(ast.literal_eval(a['ORACLES']))
     # A-classes: UNSET is the only instance of UnsetType
